@@ -174,6 +174,13 @@ def run(ctx):
     allb = [b for b in ctx.all_bodies(core) if not scan.is_test_body(b) and not b.derived]
 
     with_span_semantics(ctx, "C03.G")
+    # the constructors that span themselves with their argument (the algebra reads
+    # `ctor(x).with_span(x)` as `ctor(x)` on the strength of this)
+    for nm in resalg.SELF_SPANNING:
+        g = ctx.fn(nm)
+        if g:
+            rs = ctx.ret_values(g)
+            ctx.ob("C03.G.spanning-constructors", g.key, "returns ….with_span(argument)", bool(rs) and all(re.match(r"^darling_core::error::Error::with_span\(.*, a1\)$", r) for r in rs), "returns %s" % [r[:120] for r in rs])
     f = ctx.fn("darling_core::ast::data::Fields::<T>::with_span")
     if f:
         first_writer_wins(ctx, f, ctx.find_field_assigns(f, "span", 1), "Fields.span = Some(span)", r"Some\{a2\}$")
